@@ -227,6 +227,13 @@ Fixpoint judge (m : mst) (s : sst) (tr : list (op * list obs)) : list (verdict *
       (v, excuses s1) :: judge m1 s1 r
   end.
 
+(* the monitor's state after a trace *)
+Fixpoint mrun (m : mst) (tr : list (op * list obs)) : mst :=
+  match tr with
+  | [] => m
+  | (o, out) :: r => mrun (fst (mon m o out)) r
+  end.
+
 Definition accepted (j : list (verdict * list Z)) : bool :=
   forallb (fun ve => excused (fst ve) (snd ve)) j.
 
